@@ -490,4 +490,65 @@ def fromF32 (tie : Nat → Bool) (r g b : Nat) : Option Nat := (fields tie r g b
 
 end SharedExp
 
+/-! ### the binary32 UNORM / SNORM8 quantisers at the bit level
+
+`n1, n2, n4, n5, n6, n10::from_f32` and `s8::from_uf32` of src/color/formats.rs on binary32 bit
+patterns with the operations of `ConvF32.lean`, and the packed formats of
+src/encode/uncompressed.rs built from them.  (`s16::from_uf32` computes in `f64` and `n8`, `n16`,
+`xr10`, the YUV rows are in range by their cast / `min` alone: they stay with the abstract
+`Rounding` model above.) -/
+namespace QuantBits
+open Dds.CF32
+
+/-- `a >= b` (false when either is NaN; the zeros are equal) -/
+def fge (a b : Nat) : Bool := !isNaN a && !isNaN b && decide (key b ≤ key a)
+
+/-- `n1::from_f32`: `if x >= 0.5 { 1 } else { 0 }` -/
+def n1 (x : Nat) : Nat := if fge x half then 1 else 0
+
+/-- `(x.min(1.0) * MAX + 0.5) as uN`: `maxPat` is the pattern of the literal `MAX`, `tyMax` the
+largest value of the integer type of the cast -/
+def unorm (maxPat tyMax x : Nat) : Nat := toNatSat (fadd (fmul (fmin x one) maxPat) half) tyMax
+
+/-- the literals `3.0, 15.0, 31.0, 63.0, 1023.0, 254.0` -/
+def k3 : Nat := 0x40400000
+def k15 : Nat := 0x41700000
+def k31 : Nat := 0x41F80000
+def k63 : Nat := 0x427C0000
+def k1023 : Nat := 0x447FC000
+def k254 : Nat := 0x437E0000
+
+/-- `n2::from_f32` … `n6::from_f32` (`as u8`), `n10::from_f32` (`as u16`) -/
+def n2 (x : Nat) : Nat := unorm k3 255 x
+def n4 (x : Nat) : Nat := unorm k15 255 x
+def n5 (x : Nat) : Nat := unorm k31 255 x
+def n6 (x : Nat) : Nat := unorm k63 255 x
+def n10 (x : Nat) : Nat := unorm k1023 65535 x
+
+/-- `s8::from_uf32`: `norm = (x.min(1.0) * 254.0 + 0.5) as u8`, then `from_norm`
+(`debug_assert!(x <= 254)`, `(x + 1).wrapping_sub(128)`; `none` = the assertion / the `u8`
+overflow of `x + 1`, which is the same condition) -/
+def s8 (x : Nat) : Option Nat := snormFromNorm 8 (unorm k254 255 x)
+
+/-- `x << s` in an integer type of `bits` bits -/
+def shl (bits x s : Nat) : Nat := (x <<< s) % 2 ^ bits
+
+/-- the encoded pixel (as a little-endian number) of the packed formats, from the bit patterns
+of an RGBA `f32` pixel: the `universal!` closures of src/encode/uncompressed.rs -/
+def encode (fmt : String) (r g b a : Nat) : Option Nat :=
+  match fmt with
+  | "B5G6R5_UNORM" => some (n5 b ||| shl 16 (n6 g) 5 ||| shl 16 (n5 r) 11)
+  | "B5G5R5A1_UNORM" => some (n5 b ||| shl 16 (n5 g) 5 ||| shl 16 (n5 r) 10 ||| shl 16 (n1 a) 15)
+  | "B4G4R4A4_UNORM" => some (n4 b ||| shl 16 (n4 g) 4 ||| shl 16 (n4 r) 8 ||| shl 16 (n4 a) 12)
+  | "A4B4G4R4_UNORM" => some (n4 a ||| shl 16 (n4 b) 4 ||| shl 16 (n4 g) 8 ||| shl 16 (n4 r) 12)
+  | "R10G10B10A2_UNORM" =>
+    some (shl 32 (n2 a) 30 ||| shl 32 (n10 b) 20 ||| shl 32 (n10 g) 10 ||| n10 r)
+  | "R8G8B8A8_SNORM" =>
+    match s8 r, s8 g, s8 b, s8 a with
+    | some r, some g, some b, some a => some (r ||| (g <<< 8) ||| (b <<< 16) ||| (a <<< 24))
+    | _, _, _, _ => none
+  | _ => none
+
+end QuantBits
+
 end Dds.EncTotal
